@@ -131,6 +131,18 @@ def run_job(job):
     return res
 
 
+def _worker_init(parent_pid):
+    """Workers must not outlive the coordinator (e.g. when the check is stopped from outside)."""
+    import threading
+
+    def watch():
+        while True:
+            time.sleep(2)
+            if os.getppid() != parent_pid:
+                os._exit(3)
+    threading.Thread(target=watch, daemon=True).start()
+
+
 # ------------------------------------------------------------------------------- coordinator side
 def check(pid, tier, seed, only=None, workers=None, verbose=False):
     import logging
@@ -167,7 +179,7 @@ def check(pid, tier, seed, only=None, workers=None, verbose=False):
     nworkers = workers or min(16, os.cpu_count() or 4)
     results = []
     ctx = mp.get_context("spawn")
-    with cf.ProcessPoolExecutor(max_workers=nworkers, mp_context=ctx) as ex:
+    with cf.ProcessPoolExecutor(max_workers=nworkers, mp_context=ctx, initializer=_worker_init, initargs=(os.getpid(),)) as ex:
         pending = {}
         for j in jobs:
             if j.get("shard_depth"):
@@ -286,6 +298,9 @@ def check(pid, tier, seed, only=None, workers=None, verbose=False):
             known_findings_active=known_active, inconclusive=inconclusive[:20], **extra),
         assumptions=hm.ASSUMPTIONS, wall_s=wall, violations=len(violations))
     (EVID / f"{pid}.json").write_text(json.dumps(ev, indent=1, ensure_ascii=True))
+    if tier == "thorough":      # an extra copy, so that the last thorough run stays visible after the next quick run
+        (EVID / "thorough").mkdir(exist_ok=True)
+        (EVID / "thorough" / f"{pid}.json").write_text(json.dumps(ev, indent=1, ensure_ascii=True))
     for p, (j, v) in zip(replay_paths, violations):
         print(f"VIOLATION property={pid} replay={p}")
         print(f"  job={j['name']} label={v['label']} observed={v['observed']} inputs={json.dumps(v['inputs'])[:500]}")
